@@ -61,6 +61,27 @@ pub open spec fn rules_3_to_7(name: Seq<char>) -> bool {
     &&& !(4 <= name.len() && name.take(4) == "xn--"@)
 }
 
+/// the bytes a bucket name may consist of: lower-case letters, digits, '.', '-'
+pub open spec fn name_byte(b: u8) -> bool { (97 <= b <= 122) || (48 <= b <= 57) || b == 46 || b == 45 }
+/// `(a..b).contains(&n)` and `X.iter().all(f)` named by declared substitutions (Verus has no specification for either): same meaning
+pub fn range_contains(a: usize, b: usize, n: usize) -> (r: bool) ensures r == (a <= n && n < b) { a <= n && n < b }
+#[verifier::external_body]
+pub fn iter_all<F: Fn(&u8) -> bool>(x: &[u8], f: F) -> (r: bool)
+    requires forall|b: &u8| call_requires(f, (b,)), forall|b: &u8, o: bool| call_ensures(f, (b,), o) ==> o == name_byte(*b),
+    ensures r == (forall|i: int| 0 <= i < x@.len() ==> name_byte(#[trigger] x@[i]))
+{ unimplemented!() }
+pub fn check_bucket_name_first_two_tests(name: &str) -> (ret: bool)
+    requires name.spec_bytes().len() <= usize::MAX,
+    ensures
+        //# C12,C17:bktname.a_name_passes_the_first_two_tests_iff_it_is_3_to_63_bytes_of_lower_case_letters_digits_periods_and_hyphens
+        ret == (3 <= name.spec_bytes().len() < 64 && forall|i: int| 0 <= i < name.spec_bytes().len() ==> name_byte(#[trigger] name.spec_bytes()[i])),
+        //#-
+//@@ canary check_bucket_name_first_two_tests
+{
+//@@ extract head file=crates/s3s/src/path.rs item="fn check_bucket_name" from="if !(3_usize..64).contains(&name.len()) {" until="if name.as_bytes().first().map(" rewrites="closurerefpat,closure:1:bool,subst:(3_usize..64).contains(&name.len())=>range_contains(3_usize⸴ 64⸴ name.len()),subst:name.as_bytes().iter().all(=>iter_all(name.as_bytes()⸴"
+    true
+}
+
 pub fn check_bucket_name_from_the_third_test(name: &str) -> (ret: bool)
     requires 3 <= name@.len() < 64, forall|i: int| 0 <= i < name@.len() ==> name_char(#[trigger] name@[i]),
     ensures
